@@ -358,6 +358,10 @@ class Engine:
                 return C(1 - x[1], 'bool')
             if r['op'] == 'Neg' and is_int_const(x):
                 return C(-x[1], x[2])
+            if r['op'] == 'Not' and dest_ty and (dest_ty in ('usize', 'isize') or (dest_ty[0] in 'ui' and dest_ty[1:].isdigit())):
+                if is_int_const(x):
+                    return C(self.wrap(~x[1], dest_ty), dest_ty)
+                return T('BitNot', x, dest_ty)
             if r['op'] == 'PtrMetadata':
                 return T('ptr_metadata', x)
             return T(r['op'], x)
